@@ -60,6 +60,9 @@ pub trait Rule: RuleClone + Debug + Send {
             } else {
                 format!("{rendered}{equal_quantifier}")
             }
+        } else if kind == "glob" && escaper.has_unprintable(&expression) {
+            // escape sequences in a glob are only resolved with the extra marker
+            format!("{rendered} (escaped) (glob{quantifier})")
         } else {
             format!("{rendered} ({kind}{quantifier})")
         }
